@@ -1821,7 +1821,8 @@ def dask_groupby_agg(
     array, by = _unify_chunks(array, by)
 
     # tokenize here since by has already been hashed if its numpy
-    token = dask.base.tokenize(array, by, agg, expected_groups, axis, method)
+    # everything that changes the tasks must be in the token that names them
+    token = dask.base.tokenize(array, by, agg, expected_groups, axis, method, reindex, engine, sort, fill_value)
 
     # preprocess the array:
     #   - for argreductions, this zips the index together with the array block
